@@ -34,7 +34,7 @@ pub struct Input {
 }
 
 fn enc_arr<K: BufKind>(p: &[u8]) -> Option<Vec<u8>> {
-    encode::<K::B>(p).ok().map(|b| b.to_vec())
+    crate::drive::encode_any::<K::B>(p).ok().map(|b| b.to_vec())
 }
 
 /// All decoder front-ends with buffer kind K on one encoded frame.
@@ -105,7 +105,7 @@ impl Prop for C01 {
     fn eval(i: &Input, obs: &mut Obs) -> Result<(), Fail> {
         let p = &i.payload;
         // encoders
-        let f_vec = encode::<Vec<u8>>(p).map_err(|_| Fail::new("encode-vec-oom", "encode::<Vec<u8>> reported OutOfMemory"))?;
+        let f_vec = crate::drive::encode_any::<Vec<u8>>(p).map_err(|_| Fail::new("encode-vec-oom", "encode::<Vec<u8>> reported OutOfMemory"))?;
         let mut it = encode_streaming(p);
         let mut f_it = Vec::with_capacity(f_vec.len());
         let cap_steps = 2 * p.len() + 24;
